@@ -81,6 +81,63 @@ def cli_case(build, mode, kind, explicit=False, early=False, midshow=False):
         shutil.rmtree(d, ignore_errors=True)
 
 
+THREAD_PROG = '''\
+import sys, threading
+%(imp)s
+started, release = threading.Event(), threading.Event()
+@profile
+def worker():
+    started.set()
+    release.wait(20)
+    y = 1
+    return y
+@profile
+def main_part():
+    t = threading.Thread(target=worker)
+    t.start()
+    started.wait(20)
+    return t
+t = main_part()        # the main thread's outermost profiled call ends while the worker is in the middle of a line ...
+release.set()
+t.join()               # ... which it finishes before the program ends
+%(ending)s
+'''
+ENDINGS = {'none': '', 'exit': 'sys.exit(3)', 'kbint': 'raise KeyboardInterrupt', 'error': 'raise ValueError("boom")'}
+
+
+def thread_case(build, kind, explicit):
+    """a worker thread is in the middle of a line when another thread leaves its outermost profiled call: everything both executed is in the results"""
+    d = tempfile.mkdtemp(prefix='c06t-', dir=SCRATCH_ROOT)
+    try:
+        imp = 'from line_profiler import profile' if explicit else ''
+        with open(os.path.join(d, 'prog.py'), 'w') as fh:
+            fh.write(THREAD_PROG % {'imp': imp, 'ending': ENDINGS[kind]})
+        e = real_env(build)
+        if explicit:
+            e['LINE_PROFILE'] = '1'
+            cmd = [PY, 'prog.py']
+            out = 'profile_output.lprof'
+        else:
+            cmd = [PY, '-m', 'kernprof', '-l', 'prog.py']
+            out = 'prog.py.lprof'
+        p = subprocess.run(cmd, cwd=d, env=e, capture_output=True, text=True, timeout=120)
+        hits = None
+        if os.path.exists(os.path.join(d, out)):
+            q = subprocess.run([PY, '-c', 'import sys,json,line_profiler;s=line_profiler.load_stats(sys.argv[1]);'
+                                'print(json.dumps({k[2]: sorted([l-k[1],h] for l,h,t in v) for k,v in s.timings.items()}))', out],
+                               cwd=d, env=e, capture_output=True, text=True)
+            try:
+                hits = json.loads(q.stdout.strip().splitlines()[-1])
+            except Exception:
+                hits = {'unloadable': q.stderr[-300:]}
+        return {'rc': p.returncode, 'hits': hits, 'stderr_tail': p.stderr[-300:]}
+    finally:
+        shutil.rmtree(d, ignore_errors=True)
+
+
+THREAD_EXPECTED = {'worker': [[2, 1], [3, 1], [4, 1], [5, 1]], 'main_part': [[2, 1], [3, 1], [4, 1], [5, 1]]}
+
+
 def run(ctx):
     ctx.prove('LPVerif.Props.C06', 'LPVerif/Props/C06.lean', drivers=('Skel',))
     build = ctx.build()
@@ -169,10 +226,19 @@ def run(ctx):
         if not ok:
             ctx.fail('results were not delivered by the real command line / explicit profiler for this ending',
                      {'finding_class': None, 'cli_case': {'mode': mode, 'kind': kind, 'ends_before_any_profiled_line': early, 'program_called_show_itself_before': midshow}, 'difference': why, 'real': r})
+    # two threads: one leaves its outermost profiled call while the other is in the middle of a line
+    tcs = [(k, x) for k in kplib.KINDS for x in (False, True)]
+    with cf.ThreadPoolExecutor(max_workers=8) as ex:
+        tres = list(ex.map(lambda c: thread_case(build, *c), tcs))
+    for (kind, explicit), r in zip(tcs, tres):
+        if r['hits'] != THREAD_EXPECTED:
+            ctx.fail('two threads: the results written at the end do not hold every executed line of both profiled functions',
+                     {'finding_class': None, 'thread_case': {'kind': kind, 'explicit_profiler': explicit}, 'hits_reported': r['hits'], 'hits_executed': THREAD_EXPECTED, 'real': r})
+    ctx.coverage['thread_cases'] = len(tcs)
     ctx.coverage.update({
-        'evaluations': len(scs) + len(cli), 'distinct_nontrivial': len(nontrivial),
+        'evaluations': len(scs) + len(cli) + len(tcs), 'distinct_nontrivial': len(nontrivial),
         'rule': '9 run modes x {normal end, sys.exit, KeyboardInterrupt, uncaught ValueError} x crash point k of a loop of n=5 (quick: 3 points; thorough: every k in -1..n) '
-                '+ random (n, k, -i / -v) + one real process per (mode, ending) through `python -m kernprof` and through LINE_PROFILE=1; '
+                '+ random (n, k, -i / -v) + one real process per (mode, ending) through `python -m kernprof` and through LINE_PROFILE=1 + a two-thread program per ending; '
                 'non-trivial = the program really ends at the crash point',
         'traces_validated_against_impl': len(scs) - kdiff, 'correspondence_disagreements': kdiff, 'distribution': dist, 'cli_cases': len(cli),
         'exhaustive': not ctx.quick})
